@@ -5,7 +5,8 @@ import json
 from ..core import Prop, Suite
 from ..coqlit import cZ, cbool, clist, cnat, copt, cpair, cstr, cvalue
 
-VALUES = [1, 1.0, True, '1', None, 0, False, '', [1], [1.0], {'k': 1}, {'k': True}, {'b': 1, 'a': [2]}, 'x', 2, -3, 2.5]
+VALUES = [1, 1.0, True, '1', None, 0, False, '', [1], [1.0], {'k': 1}, {'k': True}, {'b': 1, 'a': [2]}, 'x', 2, -3, 2.5,
+          {'lr': 0.1, 'batch': 32, 'opt': {'name': 'sgd', 'm': 0.9}}, [{'z': 1, 'y': 2}]]
 NAMES = ['a', 'b', 'c', 'd', 'e', 'f']
 
 
@@ -59,9 +60,20 @@ def make_method(sig, tag):
     return ns['m']
 
 
+def reorder(v, rng):
+    """the same JSON value with the keys of every mapping in another insertion order"""
+    if isinstance(v, list):
+        return [reorder(x, rng) for x in v]
+    if isinstance(v, dict):
+        ks = list(v)
+        rng.shuffle(ks)
+        return {k: reorder(v[k], rng) for k in ks}
+    return v
+
+
 def gen_call(rng, sig, pool):
     """A random spelling of a binding drawn from a small pool (so that bindings repeat)."""
-    binding = rng.choice(pool)
+    binding = {k: reorder(v, rng) for k, v in rng.choice(pool).items()}
     pos = [p for p in sig if p['kind'] == 'pos']
     n_posargs = rng.randrange(0, len(pos) + 1)
     args = [binding[p['name']] for p in pos[:n_posargs]]
